@@ -7,7 +7,7 @@ Tie/judgement on the real binary (debug and release builds, CPU-time and address
   never any other status, never a timeout.
 Inputs: structure-aware mutations of valid grammars, planted mistakes, multi-line constructs, escapes,
 non-ASCII and invalid UTF-8, token soups; x 4 shells x {file, stdout}."""
-from .. import build, canon, impl, model, planted, report, sexp
+from .. import build, canon, gen, impl, model, planted, report, sexp
 
 SHELLS = planted.SHELLS
 
@@ -144,6 +144,15 @@ def cases(ctx):
             out.append(('mutant', t.encode('latin-1')))
     for _ in range(nbase // 2):
         out.append(('soup', soup(r).encode('latin-1')))
+    # every small expression tree over one leaf of each kind (literal, described literal, command, undefined
+    # nonterminal, within-word expression): systematic coverage of operator/leaf/level combinations
+    leaves = [('lit', 'a', None), ('lit', 'b', 'descr'), ('cmd', 'echo x'), ('nt', 'U'),
+              ('sub', [('lit', '--o=', None), ('alt', [('lit', 'x', None), ('lit', 'y', None)])])]
+    small = gen.trees_upto(3, leaves)
+    four = gen.trees(4, leaves)
+    r.shuffle(four)
+    for t in small + four[: (120 if quick else 4000)]:
+        out.append(('small-tree', gen.show_grammar([('call', 'cmd', t)]).encode('latin-1')))
     return out
 
 
@@ -180,8 +189,13 @@ def run(ctx, res):
     r = ctx['rng']
     jobs, meta = [], []
     for kind, text in cs:
-        for sh in (SHELLS if not kind.startswith('probe') else ['bash']):
-            for build_kind in ('debug', 'release'):
+        shells = SHELLS
+        if kind.startswith('probe'):
+            shells = ['bash']
+        elif kind == 'small-tree':
+            shells = [r.choice(SHELLS)]
+        for sh in shells:
+            for build_kind in (('debug',) if kind == 'small-tree' else ('debug', 'release')):
                 # every (input, shell) in both builds; destination alternates
                 to_file = r.random() < 0.5
                 sentinel = b'SENTINEL\n' if (to_file and r.random() < 0.7) else None
